@@ -107,6 +107,9 @@ type Cell struct {
 	Name string // e.g. "ctx=if a=htmlcomment sep=none b=text trail=newline" or "cell=attr-const-dq-amp-lt"
 	Body string // body text of templ t
 	Src  string // full file
+	// NoBase: not used as a mutation base (cells added after the mutant
+	// stream's witnesses were listed).
+	NoBase bool
 }
 
 // FileOf wraps a body into a self-contained file.
@@ -662,6 +665,7 @@ func AllCells() []Cell {
 	cs := Matrix()
 	cs = append(cs, CellList()...)
 	cs = append(cs, fileCells()...)
+	cs = append(cs, MultiLineCells()...)
 	return cs
 }
 
@@ -672,7 +676,7 @@ var (
 
 func buildIndex() {
 	cellIndex = map[string]string{}
-	for _, c := range AllCells() {
+	for _, c := range append(AllCells(), ImportCells()...) {
 		k := c.Body
 		if k == "" {
 			k = "FILE:" + c.Src
